@@ -319,3 +319,23 @@ def _(c):
     c.ens("mesh_starts_at_one", "self.mesh_size_integer == self.options['init_mesh_size_integer'] and result['search_count'] == self.options['search_n_try']",
           top=True, props=["C13", "C03"])
     c.may_raise("ValueError")
+
+
+@contract(B + "._update_search_bounds_", serves=["C18"])
+def _(c):
+    """The mesh-rounded search box lies inside the (transformed) hard box and is not empty: the hard box contains the unit
+    plausible box [-1, 1] and the search mesh size is at most 1, so a grid point survives on each side of 0.
+    Proved for finite (transformed) hard bounds; for an unbounded coordinate both roundings leave the infinity alone
+    (inf / m rounds to inf), which the real-number encoding does not represent."""
+    c.ints("self.D")
+    c.arr("self.optim_state['lb']", 2, [1, "self.D"])
+    c.arr("self.optim_state['ub']", 2, [1, "self.D"])
+    c.reals("self.optim_state['search_mesh_size']")
+    c.let(m="self.optim_state['search_mesh_size']")
+    c.req("mesh", "m > 0 and m <= 1", props=["C18"])
+    c.req("hard_box_contains_unit_plausible_box", "forall(self.D, lambda j: self.optim_state['lb'][0][j] <= -1 and self.optim_state['ub'][0][j] >= 1)", props=["C18"])
+    c.mod()
+    c.result = {"tuple": [{"arrspec": (2, [1, "self.D"], "num", False)}, {"arrspec": (2, [1, "self.D"], "num", False)}]}
+    c.ens("search_box_inside_hard_box", "forall(self.D, lambda j: self.optim_state['lb'][0][j] <= result[0][0][j] and result[1][0][j] <= self.optim_state['ub'][0][j])",
+          top=True, props=["C18"])
+    c.ens("search_box_nonempty", "forall(self.D, lambda j: result[0][0][j] <= result[1][0][j])", top=True, props=["C18"])
